@@ -2,8 +2,9 @@
 # Build the registry simulation (C19) test binary from /repo's current working tree.
 set -e
 export GOFLAGS=-mod=mod GOPROXY=off GOSUMDB=off GOTOOLCHAIN=local
-mkdir -p /verif/.build
-python3 /verif/tools/mkoverlay19.py /verif/.build/overlay19 >/dev/null
-cd /verif/registrysim
+V="$(cd "$(dirname "$0")" && pwd)"
+mkdir -p "$V/.build"
+python3 "$V/tools/mkoverlay19.py" "$V/.build/overlay19" >/dev/null
+cd "$V/registrysim"
 cp /repo/go.sum go.sum
-/opt/veriftools/go1.26.8/bin/go test -c -vet=off -overlay /verif/.build/overlay19/overlay.json -o /verif/.build/registry.test .
+/opt/veriftools/go1.26.8/bin/go test -c -vet=off -overlay "$V/.build/overlay19/overlay.json" -o "$V/.build/registry.test" .
